@@ -71,6 +71,7 @@ class Contract:
         # all slices of a function share requires == ensures (the mid-condition), which proves the whole sequence
         self.slice = None
         self.n_body_statements = None
+        self.check_callee_pre = True  # False: callee `requires` are assumed, not obliged (proved by other contracts of this function)
         self.cost_hint = 1
         # labels of `requires` that are global invariants/environment assumptions: assumed at entry, not
         # re-proved at every internal call site (they are proved as postconditions of the public methods)
@@ -104,6 +105,8 @@ class Contract:
             ps |= set(rc.props)
         for sp in self.loops.values():
             ps |= set(sp.props)
+        if self.effects is not None and self.fq.startswith("cfdppy.handler."):
+            ps.add("C16")  # effect typing of the handler modules
         return ps
 
     # ------------------------------------------------------------------ used at call sites
@@ -156,9 +159,11 @@ class Contract:
                         raise RaiseSig(e)
                 return interp.fresh_value(self.result, f"ret:{fi.node.name}!{next(ctx._n)}") if self.result is not None else None
         else:
+            vc = interp.verifying_contract
             for label, fn in self.requires:
-                ctx.oblige(f"{_caller(interp)}::pre-of-callee::{fi.qualname}.{label}", fn(o), kind="pre-of-callee",
-                           line=line, props=self.props)
+                if vc is None or vc.check_callee_pre:
+                    ctx.oblige(f"{_caller(interp)}::pre-of-callee::{fi.qualname}.{label}", fn(o), kind="pre-of-callee",
+                               line=line, props=self.props)
                 ctx.assume(fn(o))
         old, _ = clone_graph(roots)
         oldr = Roots(old)
